@@ -104,7 +104,7 @@ def work(ctx):
                          tres(e, E.t_pycode), "normalize+encode %s" % what, "normalize-encode")
                 # premise / conclusion of the C05 theorem: the normal form of this decoded object is well-formed data
                 ctx.case("(let code := %s in match mapM (to_const cfg) (co_consts code) with OK ks => match decode_code cfg code ks with OK d => "
-                         "match mapM_cd PAIR (normalize d) with OK d' => ser_bool (view_wf cfg code ks) ++ ser_bool (data_wf cfg d') "
+                         "match mapM_cd PAIR (normalize d) with OK d' => ser_bool (view_wf cfg code ks && ops_known cfg (co_code code)) ++ ser_bool (data_wf cfg d') "
                          "| Err _ => [2] end | Err _ => [3] end | Err _ => [4] end)".replace("PAIR", PAIR) % E.g_pycode(k),
                          [1, 1], "view_wf and data_wf of the normal form of %s" % what, "wf-monitor")
                 ncases += 1
